@@ -264,7 +264,10 @@ macro_rules! float_generators {
                     let tags = format!("fn=range ty={} out={} start={} step={} span={} family={}{}", $tyname, name,
                         sign_tag(*st), sign_tag(*sp), span, family, nt);
                     let desc = format!("fn=range ty={} out={} start={:?} end={:?} step={:?}", $tyname, name, st, e, sp);
-                    $em.case("exact", &tags, &desc,
+                    // dyadic families are exact in binary64; non-representable steps go through the
+                    // tolerant comparator (one element more or less only in the 1e-9 band, DESIGN 5.1)
+                    let cmp = if *family != "tenths" { "exact" } else if span == "div" { "custom:frange:band" } else { "custom:frange:strict" };
+                    $em.case(cmp, &tags, &desc,
                         || format!("(run_range_f {} {} {} {})", coq_bool(raw), fopt(*st), coq_f64(*e), fopt(*sp)),
                         || run_range::<$T, O>(st.map(|v| v as $T), *e as $T, sp.map(|v| v as $T), |x: $T| Cell::F(x as f64)));
                 }
@@ -388,7 +391,7 @@ fn main() {
     for _ in 0..(if thorough { 3000 } else { 600 }) {
         lins.push((Some(rng.range(-60, 60) as f64 / 10.0), rng.range(-60, 60) as f64 / 10.0, rng.below(if thorough { 40 } else { 13 })));
     }
-    float_generators!(em, f64, "f64", "exact", triples, lins, true);
+    float_generators!(em, f64, "f64", "float:1e-9", triples, lins, true);
     let no_lins: Vec<(Option<f64>, f64, usize)> = vec![];
     float_generators!(em, f64, "f64", "exact", tenths, no_lins, false);
     float_generators!(em, f64, "f64", "exact", odd, no_lins, false);
